@@ -9,8 +9,10 @@ from .extras import ob
 from .pyfront import Source
 
 EVAL_MODULES = ['ast_ops', 'functions', 'scoped_dict', 'vm_state', 'utils', 'lexer', 'rules', 'custom_types', 'exceptions']
+# modules without I/O, process control, dynamic code or introspection of the interpreter
 ALLOWED_IMPORTS = {'typing', 'functools', 'copy', 'math', 'random', 'decimal', 'regex', 'dataclasses', 'abc',
-                   'contextlib', 'pathlib', 'smartquery'}
+                   'contextlib', 'pathlib', 'smartquery', 'operator', 'itertools', 'collections', 'string', 'numbers',
+                   'enum', 'bisect', 'heapq', 'fractions', 'statistics', 'textwrap', 'unicodedata', '__future__'}
 CONTEXT_NAMES = {'getcontext', 'setcontext', 'localcontext', 'BasicContext', 'ExtendedContext', 'DefaultContext', 'Context'}
 CONTEXT_ATTRS = {'prec', 'rounding', 'Emax', 'Emin', 'traps', 'flags', 'capitals', 'clamp'}
 PROCESS_NAMES = {'exit', '_exit', 'abort', 'kill', 'raise_signal', 'quit', 'system', 'popen', 'fork'}
